@@ -128,6 +128,19 @@ def judge(case):
             viol.append("grammatical experiment does not compile: %s: %s | %s" % (sib[1], sib[2], M.render(case["sibling"])))
     if "text" in case:
         tags.append("written-with-trivia")
+    if case.get("shape") != "k1" and not (set(idents) & (known_ids("field") | known_ids("name") | gen.K1_NAMES)) and runner.digest(text)[0] in "0123":
+        # the same experiment through every documented option of the code generator (indentation string x layout)
+        tags.append("generator-options")
+        env0 = M.dec_inputs(case["inputs"][0]) if case["inputs"] else None
+        for label, fn, err in common.rendered_with_options(text, prog["name"]):
+            if err:
+                viol.append("grammatical experiment does not compile with %s: %s | %s" % (label, err, text))
+                break
+            if env0 is not None:
+                a, b = sut.call(res[1], env0), sut.call(fn, env0)
+                if a[0] != b[0] or (a[0] == "group" and prog.get("splitters") and not sut.same_value(a[1], b[1])):
+                    viol.append("with %s the module gives %r, the evaluator %r | inputs=%r | %s" % (label, b[:2], a[:2], env0, text))
+                    break
     for enc in case["inputs"]:
         env = M.dec_inputs(enc)
         act = sut.call(res[1], env)
